@@ -145,6 +145,21 @@ def run(ctx):
                     ctx.violation('C10|kind-confusion|key_hash|%s-read-as-key-hash|attempt-%s' % (b58[:3], 'first' if attempt == 1 else 'repeated'),
                                   '%r accepted as key_hash %r on attempt %d' % (lit, getattr(o, 'value', o), attempt), {'type_expr': {'prim': 'key_hash'}, 'literal': lit, 'negative': True})
                     break
+    # the two byte forms of an implicit account: 21 bytes are a key_hash and never an address, 22 bytes (leading 00) are an address
+    # and never a key_hash
+    for d in ds[:6] + [G.rbytes(rng, 20) for _ in range(3)]:
+        for tag in range(4):
+            for cls_, name, raw in ((addr_cls, 'address', bytes([tag]) + d), (kh_cls, 'key_hash', bytes([0, tag]) + d)):
+                for attempt in (1, 2):
+                    ctx.count('cross_kind_reads')
+                    ctx.case(('length-form', name, raw, attempt), nontrivial=True)
+                    try:
+                        o = cls_.from_micheline_value({'bytes': raw.hex()})
+                    except Exception:
+                        continue
+                    ctx.violation('C10|kind-confusion|%s|%d-byte-form-accepted' % (name, len(raw)), '%s accepted as %s %r' % (raw.hex(), name, getattr(o, 'value', o)),
+                                  {'type_expr': {'prim': name}, 'literal': {'bytes': raw.hex()}, 'negative': True})
+                    break
     # tx rollup l2 address type: intrinsic round trip only
     for d in ds[:4]:
         try:
